@@ -136,7 +136,7 @@ class SaverModel:
             f = ev.func
             seq = prefix + (ev.seq,)
             # --- opens
-            if ev.name == "open":
+            if ev.name == "open" and not is_global(f, "os.open"):
                 if f[0] == "attr":
                     path, mode = f[1], _mode_of(ev, 0)
                 elif is_global(f, "open", "io.open", "codecs.open") and ev.args:
@@ -147,10 +147,32 @@ class SaverModel:
                     self.undecided.append((ev, ref, "open() with a mode that is not a string literal"))
                     continue
                 if WRITE_MODE_CHARS & set(mode):
-                    self.writes.append(_Write(ev, ref, path, path_kind(path, dests), f"open(mode={mode!r})",
-                                              close_seq_for(ev), seq))
+                    w = _Write(ev, ref, path, path_kind(path, dests), f"open(mode={mode!r})", close_seq_for(ev), seq)
+                    w.fresh = bool(set(mode) & {"w", "x"})
+                    self.writes.append(w)
+                continue
+            if is_global(f, "os.open") and ev.args:
+                flags = ev.args[1] if len(ev.args) > 1 else ev.kwargs.get("flags")
+                names = {x[1].rsplit(".", 1)[-1] for x in subterms(flags) if x[0] == "global" and x[1].startswith("os.O_")} if flags is not None else set()
+                if names & {"O_WRONLY", "O_RDWR", "O_CREAT", "O_APPEND", "O_TRUNC"}:
+                    w = _Write(ev, ref, ev.args[0], path_kind(ev.args[0], dests), "os.open(" + "|".join(sorted(names)) + ")", None, seq)
+                    w.fresh = bool(names & {"O_TRUNC", "O_EXCL"})
+                    w.fd_term = ev.term
+                    self.writes.append(w)
                 continue
             if is_global(f, "os.fdopen") and ev.args:
+                # the descriptor of an os.open() seen before: the file object writes to that path; remember where it is closed
+                for w0 in self.writes:
+                    if getattr(w0, "fd_term", None) == ev.args[0]:
+                        w0.close_seq = close_seq_for(ev)
+                        break
+                else:
+                    mode = _mode_of(ev, 1)
+                    if mode is None or WRITE_MODE_CHARS & set(mode):
+                        self.writes.append(_Write(ev, ref, ev.args[0], path_kind(ev.args[0], dests), "os.fdopen",
+                                                  close_seq_for(ev), seq))
+                continue
+            if False and is_global(f, "os.fdopen") and ev.args:
                 mode = _mode_of(ev, 1)
                 if mode is None or WRITE_MODE_CHARS & set(mode):
                     self.writes.append(_Write(ev, ref, ev.args[0], path_kind(ev.args[0], dests), "os.fdopen",
@@ -248,6 +270,11 @@ def rule_c20_atomic(prog: Program, col: Collector) -> None:
                   construct=f"foreign-temp:{w.how}",
                   necessity="a temporary file on another file system cannot be renamed atomically onto the destination",
                   rule="A2")
+    for w in m.writes:
+        if w.kind == "sibling" and getattr(w, "fresh", None) is False:
+            col.check(False, w.ref.where(w.ev.node), w.ref.short, f"the temporary file is created fresh (truncating or exclusive open; found {w.how})", construct="temp-not-fresh",
+                      necessity="a save that died earlier leaves its temporary file behind: opened without truncation, a shorter new content keeps the tail of the leftover, and the "
+                                "replace installs a file that does not parse ('Extra data') - every stored run is lost one save after the crash", rule="A2")
     col.rule("A3", "the atomic replace(tmp, dest) comes after the temporary file is closed, on every path that wrote it", 0)
     dests = {("param", m.dest_param)}
     for w in m.writes:
